@@ -30,6 +30,7 @@
 #include <unordered_set>
 
 #include "../lc.h"
+#include "../layout.h"
 #include "../util.h"
 #include "../vfio.h"
 #include "../vfsched.h"
@@ -364,6 +365,24 @@ class ConcRunner {
       if (st != LDB_OK) VF_FAIL("C20", "scan of the backup taken by `%s` ends with status %d", o.text.c_str(), st);
       o.kind = O_SCAN;
       backups_checked++;
+    }
+    // ---- in every second program (decided by the program text): wait until background work has settled and check the
+    // level structure the database reports (C14: sorted, non-overlapping files above level 0, contents within bounds,
+    // newer above older).  The other half keeps closing while background work may still be scheduled.
+    uint64_t prog_hash = 1469598103934665603ULL;
+    for (auto &op : c.ops) if (op.name != "choices") prog_hash = fnv1a(op.str(), prog_hash);
+    if ((prog_hash & 1) == 0) {
+      sched_quiesce();
+      char *lt = nullptr;
+      if (ldb_property(sh.db, "leveldb.sstables", &lt) && lt) {
+        Layout L;
+        std::string err, why;
+        std::string text = lt;
+        ldb_free(lt);
+        if (!parse_layout(text, L, &err)) VF_FAIL("C14", "cannot parse leveldb.sstables: %s", err.c_str());
+        if (!layout_deep_check(L, dir, cmp_kind_of(cfg.cmp), &why)) VF_FAIL(why.substr(0, 3) == "C13" ? "C13" : "C14", "after the concurrent phase: %s", why.c_str());
+        rep->count("layout_checks_after_concurrent_phase");
+      }
     }
     // ---- final state, then close while background work may still be scheduled
     std::vector<std::pair<std::string, std::string>> final_scan;
